@@ -46,6 +46,7 @@ type prunerCfg struct {
 	L2PerPrune uint64
 	MinAge     time.Duration
 	BatchBytes int
+	Tick       time.Duration // interval of the min-age sample ticker (0 = 24 h: the sample is refreshed only by restarting)
 }
 
 const waitLimit = 20 * time.Second
@@ -88,7 +89,11 @@ func startPruner(inner *memory.Database, floor *pruner.RetentionFloor, c prunerC
 		pruner.WithTargetBatchByteSize(c.BatchBytes),
 		pruner.WithL2HeadsPerPrune(c.L2PerPrune),
 		pruner.WithMinAge(c.MinAge),
-		pruner.WithFloorTickInterval(24 * time.Hour), // the sample is refreshed only by restarting (seedFloor)
+	}
+	if c.Tick > 0 {
+		opts = append(opts, pruner.WithFloorTickInterval(c.Tick))
+	} else {
+		opts = append(opts, pruner.WithFloorTickInterval(24*time.Hour)) // the sample is refreshed only by restarting (seedFloor)
 	}
 	pr := pruner.New(p.hdb, floor, c.Retained, p.l2Feed.Subscribe(), p.l1Feed.Subscribe(), log.NewNopZapLogger(), opts...)
 	ctx, cancel := context.WithCancel(context.Background())
@@ -171,4 +176,11 @@ func (p *prunerProc) stop() {
 		}
 		p.exited = true
 	}
+}
+
+// awaitTick returns once a tick of the sample ticker has started after the call (sampleHeight reads the chain
+// height first); the dispatch loop is sequential, so the tick is complete before the next event is handled.
+func (p *prunerProc) awaitTick() bool {
+	c := p.hdb.heightReads.Load()
+	return p.waitFor(func() bool { return p.hdb.heightReads.Load() > c || p.isDone() })
 }
